@@ -1,7 +1,7 @@
 package lite
 
 import (
-	"math/rand"
+	"go.minekube.com/gate/pkg/gate/proto"
 	"net"
 	"time"
 
@@ -11,20 +11,6 @@ import (
 	"go.minekube.com/gate/pkg/edition/java/proto/packet"
 	zz "go.minekube.com/gate/pkg/internal/zzverif"
 )
-
-func zzFixedClock() {
-	fixed := time.Unix(1000, 0)
-	zz.Replace("time.Now", func() time.Time { return fixed })
-}
-
-// zzRand makes the random strategy's choice an arbitrary value of the documented range.
-func zzStubRand() {
-	zz.ReplaceSym("(*math/rand.Rand).Intn", func(r *rand.Rand, n int) int {
-		v := zz.Int()
-		zz.Assume(v >= 0 && v < n)
-		return v
-	})
-}
 
 var zzBackends = []string{"b0:1", "b1:1", "b2:1"}
 
@@ -227,6 +213,80 @@ func VerifHarness_ConnectionCounts() {
 	}
 	zz.Assert(sm.ActiveConnections() == 0, "the active-connection count did not return to zero")
 	zz.Reach("counts")
+}
+
+// Least-connections counts the connections that are really open, whatever spelling the route uses for
+// a backend (no port, upper case, explicit port): after opening up to two connections the backend
+// with the fewest open connections is chosen (the first of them on a tie).
+func VerifHarness_LeastConnectionsSeesOpenConnections() {
+	zzFixedClock()
+	sm := NewStrategyManager()
+	spelled := []string{"b0", "B1:25565", "b2:1"}
+	var open [3]int
+	n := zz.Choose(3)
+	for i := 0; i < n; i++ {
+		k := zz.Choose(3)
+		_ = sm.TrackConnection("h", spelled[k])
+		open[k]++
+	}
+	got, _, ok := sm.GetNextBackend(logr.Discard(), &config.Route{Strategy: config.StrategyLeastConnections}, "h", spelled)
+	zz.Assert(ok, "no backend chosen")
+	best := 0
+	for i := 1; i < 3; i++ {
+		if open[i] < open[best] {
+			best = i
+		}
+	}
+	zz.Assert(got == spelled[best], "least-connections did not choose the backend with the fewest open connections")
+	zz.Assert(int(sm.ActiveConnections()) == n, "the active-connection count differs from the open connections")
+	zz.Reach("least-open")
+}
+
+// A whole forward (real Forward/tryBackends/dialRoute over in-memory connections) with arbitrary dial
+// outcomes and a possible fault right after the dial (the client's buffered bytes cannot be read):
+// every backend is dialed at most once, in order, until one accepts; when the forward has ended - for
+// whatever reason - no connection is counted as open any more.
+func VerifHarness_ForwardCountsAndFailover() {
+	zz.MaxLen(2)
+	zz.Unwind(300)
+	zzFixedClock()
+	sm := NewStrategyManager()
+	route := config.Route{Host: []string{"*"}, Backend: []string{"b0:1", "b1:1", "b2:1"}, Strategy: config.StrategySequential}
+	client := &zzFwdClient{conn: &zzPipeConn{remote: &net.TCPAddr{IP: net.IPv4(1, 2, 3, 4), Port: 5}, in: zz.Bytes(zz.Choose(2))}}
+	if zz.Bool() {
+		client.bufferedErr = errZZDial
+	}
+	d := &zzDialer{refuse: map[string]bool{}}
+	for _, b := range route.Backend {
+		if zz.Bool() {
+			d.refuse[b] = true
+		}
+	}
+	d.install()
+	hs := &packet.Handshake{ProtocolVersion: 767, ServerAddress: "play.example", Port: 25565, NextStatus: 2}
+	pc := &proto.PacketContext{Direction: proto.ServerBound, Protocol: 767, Payload: []byte{0, 1, 2}}
+	Forward(time.Second, []config.Route{route}, logr.Discard(), client, hs, pc, sm)
+	zz.WaitAll()
+	// dialed = the configured order up to and including the first backend that accepts
+	want := []string{}
+	for _, b := range route.Backend {
+		want = append(want, b)
+		if !d.refuse[b] {
+			break
+		}
+	}
+	zz.Assert(len(d.dialed) == len(want), "backends were not tried one by one until the first that accepts (or a backend was tried twice)")
+	for i := range want {
+		zz.Assert(d.dialed[i] == want[i], "backends were not tried in the order the strategy dictates")
+	}
+	zz.Assert(sm.ActiveConnections() == 0, "a forward that has ended is still counted as an open connection")
+	for _, b := range route.Backend {
+		if c := sm.getCounter(b); c != nil {
+			zz.Assert(c.Load() == 0, "a backend's least-connections counter stays raised after the forward ended")
+		}
+	}
+	zz.Assert(client.closed >= 1, "the client connection was not closed when the forward ended")
+	zz.Reach("forward-counts")
 }
 
 // Two connections on two goroutines: counts are exact afterwards and the manager's shared state is
